@@ -44,6 +44,7 @@ type cexFile struct {
 	Values  map[string]interface{} `json:"values"`
 	Params  map[string]int         `json:"params"`
 	Trace   []string               `json:"trace"`
+	SchedForks int                 `json:"sched_forks"`
 }
 
 func readCex(path string) (*cexFile, error) {
@@ -361,7 +362,18 @@ func CheckMain(args []string) int {
 			hs.Replays++
 			totalReplays++
 		}
-		switch tk.verdict {
+		verdict := tk.verdict
+		if verdict != "fail" && verdict != "unreplayed" && c.SchedForks > 0 {
+			// The failing path took non-default scheduling choices (sched_fork
+			// harness). A native run uses the Go scheduler and cannot be forced
+			// onto that interleaving, so native replay cannot confirm it; the
+			// preemption points are synchronisation operations only, i.e. a
+			// subset of what the real scheduler may do. Reported as a violation,
+			// marked schedule-dependent.
+			verdict = "fail"
+			fmt.Printf("  note: schedule-dependent counterexample (%d preemptions), found by deterministic execution of the real code's SSA; the native run (%s) cannot force the schedule\n", c.SchedForks, tk.verdict)
+		}
+		switch verdict {
 		case "fail":
 			isKnown := false
 			for _, kf := range known {
